@@ -49,6 +49,7 @@ from unified_planning.model import (
     MaximizeExpressionOnFinalState,
 )
 from unified_planning.model.problem_kind_versioning import LATEST_PROBLEM_KIND_VERSION
+from unified_planning.model.fluent import get_all_fluent_exp
 from unified_planning.engines.results import (
     ValidationResult,
     ValidationResultStatus,
@@ -60,6 +61,7 @@ from unified_planning.engines.sequential_simulator import (
     InapplicabilityReasons,
     UPSequentialSimulator,
     evaluate_quality_metric,
+    evaluate_quality_metric_in_initial_state,
 )
 from unified_planning.model.walkers.state_evaluator import StateEvaluator
 from unified_planning.plans import SequentialPlan, PlanKind
@@ -234,15 +236,20 @@ class SequentialPlanValidator(engines.engine.Engine, mixins.PlanValidatorMixin):
                         metric.is_minimize_action_costs()
                         or metric.is_minimize_sequential_plan_length()
                     ):
-                        metric_value = evaluate_quality_metric(
-                            simulator,
-                            metric,
-                            metric_value,
-                            trace[-1],
-                            ai.action,
-                            ai.actual_parameters,
-                            trace[-1],
-                        )
+                        if len(plan.actions) == 0:
+                            metric_value = evaluate_quality_metric_in_initial_state(
+                                simulator, metric
+                            )
+                        else:
+                            metric_value = evaluate_quality_metric(
+                                simulator,
+                                metric,
+                                metric_value,
+                                trace[-1],
+                                ai.action,
+                                ai.actual_parameters,
+                                trace[-1],
+                            )
                     metric_evaluations = {metric: metric_value}
                 return ValidationResult(
                     ValidationResultStatus.VALID,
@@ -378,6 +385,15 @@ class TimeTriggeredPlanValidator(engines.engine.Engine, mixins.PlanValidatorMixi
                             # Handle "delete before add" semantics
                             if v.bool_constant_value():
                                 updates[f] = v
+                        elif (
+                            eff.is_assignment()
+                            and f in assigned
+                            and assigned[f] == ai
+                            and updates[f].constant_value() == v.constant_value()
+                        ):
+                            # The same action assigns the same value twice: no conflict,
+                            # as in the sequential semantics
+                            pass
                         else:
                             raise UPConflictingEffectsException("Double effect")
                     else:
@@ -599,10 +615,25 @@ class TimeTriggeredPlanValidator(engines.engine.Engine, mixins.PlanValidatorMixi
                 )
                 next_id += 1
 
-        for invariant in problem.state_invariants:
+        # State invariants and bounded numeric types must hold in every state of the
+        # trace, the final one included (end=None: up to the end of the plan).
+        invariants: List[FNode] = list(problem.state_invariants)
+        for f in problem.fluents:
+            f_type = f.type
+            if f_type.is_int_type() or f_type.is_real_type():
+                lower_bound = f_type.lower_bound  # type: ignore[attr-defined]
+                upper_bound = f_type.upper_bound  # type: ignore[attr-defined]
+                if lower_bound is None and upper_bound is None:
+                    continue
+                for f_e in get_all_fluent_exp(problem, f):
+                    if lower_bound is not None:
+                        invariants.append(em.LE(lower_bound, f_e))
+                    if upper_bound is not None:
+                        invariants.append(em.LE(f_e, upper_bound))
+        for invariant in invariants:
             durative_conditions.append(
                 (
-                    (Fraction(0), plan_duration, False),
+                    (Fraction(0), None, False),
                     next_id,
                     invariant,
                     None,
